@@ -19,6 +19,7 @@ import (
 	"errors"
 	"io"
 	"net/http"
+	"strings"
 )
 
 // Client is a reusable, concurrency-safe client for a single procedure.
@@ -181,7 +182,12 @@ type clientConfig struct {
 }
 
 func newClientConfig(url string, options []ClientOption) (*clientConfig, *Error) {
-	protoPath := extractProtoPath(url)
+	procedureURL := url
+	if i := strings.IndexAny(procedureURL, "?#"); i >= 0 {
+		// A query or fragment isn't part of the procedure's name.
+		procedureURL = procedureURL[:i]
+	}
+	protoPath := extractProtoPath(procedureURL)
 	config := clientConfig{
 		Protocol:         &protocolConnect{},
 		Procedure:        protoPath,
